@@ -60,6 +60,9 @@
 (*                             message writer D has open - D's buffered bytes *)
 (*                             go out as a final frame written by R, D's      *)
 (*                             message is truncated and its next call fails   *)
+(*   TimeoutFaultLatches = FALSE  "timeout-not-sticky": a transport write     *)
+(*                             that failed with a timeout is not latched: the *)
+(*                             next writer writes behind the truncated frame  *)
 (*                                                                            *)
 (* Deadlines.  A control opcode with the suffix "~" ("ping~") is sent with a  *)
 (* SHORT deadline: WriteControl waits for the lock in                         *)
@@ -72,7 +75,7 @@
 (* have a deadline far away (or none): they wait for ever.                    *)
 EXTENDS Naturals, Sequences, FiniteSets, TLC
 
-CONSTANTS Program,            \* [msgs, hold, ctl, rd, cx, closer]:
+CONSTANTS Program,            \* [msgs, hold, ctl, rd, cx, fault, closer]:
                               \*   msgs   = sequence of messages, message = sequence of frames,
                               \*            frame = BOOLEAN (TRUE: a second transport write `extra`)
                               \*   ctl    = sequence (one per control sender) of sequences of
@@ -85,9 +88,14 @@ CONSTANTS Program,            \* [msgs, hold, ctl, rd, cx, closer]:
                               \*   cx     = sequence of [p, c, n]: the control frame of call c of process p
                               \*            reaches the transport in n > 1 writes (the library's
                               \*            choice: e.g. header, then the caller's payload); all others in one
+                              \*   fault  = sequence of [p, c, k, some, kind]: the k-th transport write of call c
+                              \*            of process p FAILS although the transport stays open (a write
+                              \*            deadline inside net.Conn.Write / another transport error: kind
+                              \*            "timeout" / "error"); the transport has accepted a proper prefix of
+                              \*            the bytes - a non-empty one if `some` - and later writes would succeed
                               \*   closer = BOOLEAN (is there a process calling Conn.Close)
           ControlTakesLock, FlushAtomic, LatchChecked, CloseLatches, TimeoutReleases,
-          HandlerControlPath
+          HandlerControlPath, TimeoutFaultLatches
 
 VARIABLES prog,    \* the program (see Program)
           lock,    \* holder of `mu`, or NoProc
@@ -130,11 +138,18 @@ HasExtra(e) == e.proc = "D" /\ prog.msgs[e.call][e.frame]
 \* frame header) and parts "cext"; the field `frame` of their wire entries numbers them 1..CParts.
 CParts(p, j) == LET S == {i \in 1..Len(prog.cx) : prog.cx[i].p = p /\ prog.cx[i].c = j}
                 IN IF S = {} THEN 1 ELSE prog.cx[CHOOSE i \in S : TRUE].n
-IsCtl(e)    == e.part \in {"ctl", "cext"}
+\* A transport write that failed after the transport had accepted a non-empty proper prefix leaves
+\* a wire entry whose part is marked "!": the frame stays incomplete for ever.
+IsCut(e)    == e.part \in {"hdr!", "extra!", "ctl!", "cext!"}
+IsCtl(e)    == e.part \in {"ctl", "cext", "ctl!", "cext!"}
+\* the number of the transport write process p is about to make within its call (a failed write ends the call)
+WriteNo(p)  == 1 + Cardinality({i \in 1..Len(wire) : wire[i].proc = p /\ wire[i].call = call[p]})
+FaultOf(p)  == {i \in 1..Len(prog.fault) : prog.fault[i].p = p /\ prog.fault[i].c = call[p] /\ prog.fault[i].k = WriteNo(p)}
 PartsDone(p) == Cardinality({i \in 1..Len(wire) : IsCtl(wire[i]) /\ wire[i].proc = p /\ wire[i].call = call[p]})
 IsClose(e)  == IsCtl(e) /\ Code(CtlSeq(e.proc)[e.call]) = "close"
 \* the Close frame has been sent: its last part is on the wire
-CloseOnWire == \E i \in 1..Len(wire) : IsClose(wire[i]) /\ wire[i].frame = CParts(wire[i].proc, wire[i].call)
+CloseOnWire == \E i \in 1..Len(wire) : /\ IsClose(wire[i]) /\ ~IsCut(wire[i])
+                                        /\ wire[i].frame = CParts(wire[i].proc, wire[i].call)
 
 InitWith(pr) ==
   /\ prog = pr
@@ -153,6 +168,10 @@ Failed == LatchChecked /\ latch # "none"
 \* --------------------------------------------------------------- application
 \* the reader reads no further: the transport is closed or the peer's Close frame was handled
 RStopped == closed \/ \E j \in 1..call["R"] : Code(prog.rd[j]) = "close"
+
+\* ... and it may read no further once a default handler's write failed on the transport (the handler hands
+\* the error to the read loop, which the application then leaves - or swallows it: the library's business)
+RMayStop == "R" \in Procs /\ (RStopped \/ \E j \in 1..Len(res["R"]) : res["R"][j].r = "other" /\ IsDflt(prog.rd[j]))
 
 \* the application calls WriteMessage / NextWriter.., WriteControl or Close;
 \* for R: a Ping / Close frame of the peer reaches its handler on the reading goroutine
@@ -225,6 +244,7 @@ Entry(p) == IF pc[p] = "steal"     \* (deviation) D's buffered bytes, flushed by
 \* transport call has returned: a call that begins in between still finds the latch open
 TWrite(p) ==
   /\ pc[p] \in {"hdr", "extra", "ctl", "cext", "steal"}
+  /\ closed \/ FaultOf(p) = {}
   /\ IF closed
        THEN /\ err'   = [err EXCEPT ![p] = "other"]
             /\ pc'    = [pc EXCEPT ![p] = "fatal"]
@@ -244,6 +264,16 @@ TWrite(p) ==
                                   ELSE IF Op(p) = "close" THEN "latch" ELSE "rel"]
                       /\ UNCHANGED <<latch, err>>
   /\ UNCHANGED <<prog, lock, closed, call, fr, hp, late, res>>
+
+\* one net.Conn.Write that fails although the transport is open (prog.fault): a prefix of the bytes is on
+\* the wire; the error is latched like any other (deviation: not if it is a timeout)
+TFault(p) ==
+  /\ pc[p] \in {"hdr", "extra", "ctl", "cext"} /\ ~closed /\ FaultOf(p) # {}
+  /\ LET f == prog.fault[CHOOSE i \in FaultOf(p) : TRUE] IN
+       /\ wire' = IF f.some THEN Append(wire, [Entry(p) EXCEPT !.part = @ \o "!"]) ELSE wire
+       /\ err'  = [err EXCEPT ![p] = "other"]
+       /\ pc'   = [pc EXCEPT ![p] = IF f.kind = "timeout" /\ ~TimeoutFaultLatches THEN "rel" ELSE "fatal"]
+  /\ UNCHANGED <<prog, lock, latch, closed, call, fr, hp, late, res>>
 
 \* return c.writeFatal(err)   (still under the lock)
 Fatal(p) ==
@@ -319,9 +349,9 @@ Steady(p)   == \/ (p = "D" /\ (Prep \/ Rel1 \/ Acq2))
                \/ Acquire(p) \/ Check(p) \/ SetLatch(p) \/ Fatal(p) \/ Release(p) \/ Return(p)
 Internal(p) == Steady(p) \/ Timeout(p)
 
-Done == \A p \in Procs : pc[p] = "idle" /\ (call[p] = NCalls(p) \/ (p = "R" /\ RStopped))
+Done == \A p \in Procs : pc[p] = "idle" /\ (call[p] = NCalls(p) \/ (p = "R" /\ RMayStop))
 
-Next == \/ \E p \in Procs : Begin(p) \/ TWrite(p) \/ Internal(p)
+Next == \/ \E p \in Procs : Begin(p) \/ TWrite(p) \/ TFault(p) \/ Internal(p)
         \/ Resume
         \/ XClose
         \/ (Done /\ UNCHANGED vars)
@@ -334,7 +364,7 @@ TypeOK ==
   /\ latch \in {"none", "closesent", "other"}
   /\ closed \in BOOLEAN
   /\ \A i \in 1..Len(wire) : /\ wire[i].proc \in Procs \ {"X"}
-                             /\ wire[i].part \in {"hdr", "extra", "ctl", "cext"}
+                             /\ wire[i].part \in {"hdr", "extra", "ctl", "cext", "hdr!", "extra!", "ctl!", "cext!"}
   /\ hp \in Nat /\ (pc["D"] = "app" => hp > 0)
   /\ \A p \in Procs : /\ call[p] \in 0..NCalls(p)
                       /\ Len(res[p]) \in {call[p], call[p] - 1}
@@ -346,18 +376,31 @@ LockOK == /\ lock # NoProc => pc[lock] \in {"chk", "hdr", "extra", "ctl", "cext"
 \* the transport writes of one frame are adjacent: a header that needs `extra` is
 \* followed by it (or is, so far / for ever after Close, the last write), and no
 \* `extra` stands anywhere else
+\* a frame that a failed transport write left incomplete is the end of the wire: the cut part follows the
+\* parts of its frame written before and nothing follows it
+CutIsLastAt(i) ==
+  IsCut(wire[i]) =>
+    /\ i = Len(wire)
+    /\ wire[i].part = "extra!" => (i > 1 /\ wire[i - 1] = [wire[i] EXCEPT !.part = "hdr"])
+    /\ wire[i].part = "cext!"  => /\ i > 1 /\ wire[i].frame > 1
+                                  /\ wire[i - 1] = [wire[i] EXCEPT !.frame = @ - 1,
+                                                       !.part = IF wire[i].frame = 2 THEN "ctl" ELSE "cext"]
+    /\ wire[i].part = "ctl!" => wire[i].frame = 1
+CutIsLast == \A i \in 1..Len(wire) : CutIsLastAt(i)
+
 WholeFrames ==
   \A i \in 1..Len(wire) :
     /\ (wire[i].part = "hdr" /\ HasExtra(wire[i]) /\ i < Len(wire))
-          => wire[i + 1] = [wire[i] EXCEPT !.part = "extra"]
+          => wire[i + 1] \in {[wire[i] EXCEPT !.part = "extra"], [wire[i] EXCEPT !.part = "extra!"]}
     /\ wire[i].part = "extra" => (i > 1 /\ wire[i - 1] = [wire[i] EXCEPT !.part = "hdr"])
     \* the same for the parts of a control frame
     /\ (IsCtl(wire[i]) /\ wire[i].frame < CParts(wire[i].proc, wire[i].call) /\ i < Len(wire))
-          => wire[i + 1] = [wire[i] EXCEPT !.part = "cext", !.frame = @ + 1]
+          => wire[i + 1] \in {[wire[i] EXCEPT !.part = "cext", !.frame = @ + 1], [wire[i] EXCEPT !.part = "cext!", !.frame = @ + 1]}
     /\ wire[i].part = "cext" => /\ i > 1 /\ wire[i].frame > 1
                                 /\ wire[i - 1] = [wire[i] EXCEPT !.frame = @ - 1,
                                                      !.part = IF wire[i].frame = 2 THEN "ctl" ELSE "cext"]
     /\ wire[i].part = "ctl" => wire[i].frame = 1
+    /\ CutIsLastAt(i)
 
 \* the frames of a data message are exactly what the data writer wrote: every transport write
 \* that carries (part of) a data frame is D's, every one that carries (part of) a control frame is its
